@@ -156,7 +156,7 @@ Lemma browser_cache_records_backed now j RS : forall rs nms nulls w,
 Proof.
   induction rs as [|r rs IH]; intros nms nulls w C Hr; cbn [browser_cache_records]; [split; [exact C|apply AllBacked_nil]|].
   destruct (nth_error (w_browsers w) j) as [b|]; [|split; [exact C|apply AllBacked_nil]].
-  destruct (if (r_type r =? T_PTR)%N then _ else _) as [[keep upd] tgt].
+  destruct (classify _ r) as [[keep upd] tgt].
   assert (H1 : CacheIncl RS (fst (match tgt with
             | Some t => (mkWorld (w_caches w) (replace_nth j (mkBrowser (b_type b) (b_cache b) (b_services b) (b_hostnames b)
                                    (set_insert (bs_data t) (b_ptr_targets b))) (w_browsers w)) (w_jitter w),
